@@ -26,6 +26,7 @@ import (
 	"regexp"
 	"runtime/debug"
 	"sort"
+	"strconv"
 	"strings"
 	"sync"
 	"time"
@@ -397,7 +398,7 @@ func c04Replay(c *Ctx, h *c04Run) {
 
 func runC04(c *Ctx) {
 	r := c.R
-	r.Rule = "outcome class of parser.Parse / expr.Compile / expr.Eval / expr.Run under recover + 5 s deadline for: 300 hand-written failure-mode sources and the zoo generator's sources, their byte/token mutations, random byte strings up to 64 KiB (random bytes, ASCII, multi-plane UTF-8, token soup), 31 nesting bombs of 64 KiB (child process), the full 6400-element option matrix x 4 sources plus random option subsets on every stream, 12 run-time environments (nil, zero, wrongly typed, panicking members); non-trivial = non-empty input that reached an outcome; distinct by (api, options, source)"
+	r.Rule = "outcome class of parser.Parse / expr.Compile / expr.Eval / expr.Run under recover + 5 s deadline for: systematic enumerations (every escape introducer x 0..9 following digits x both quotes x closed/extended/unterminated, alone and embedded; number-token stems x tails; word-operator prefixes and extensions in every operand position; int32/int64 boundary literals incl. hex and overflowing folds in 22 operator/range/index/slice templates x 6 option sets), 200 hand-written failure-mode sources and the zoo generator's sources, their byte/token mutations, random byte strings up to 64 KiB (random bytes, ASCII, multi-plane UTF-8, token soup), 31 nesting bombs of 64 KiB (child process), the full 6400-element option matrix x 4 sources plus random option subsets on every stream, 12 run-time environments (nil, zero, wrongly typed, panicking members); plus the C12 lexer correspondence (Lean lexer model, proved total) on ~50 000 of these strings; non-trivial = non-empty input that reached an outcome; distinct by (api, options, source)"
 	h := &c04Run{c: c, best: map[string]Violation{}, size: map[string]int{}}
 	if c.Replay != "" {
 		c04Replay(c, h)
@@ -456,6 +457,37 @@ func runC04(c *Ctx) {
 		jobs <- func() { h.parseAndEval(src, fewEnvs[:2]); h.compileAndRun(src, o, fewEnvs) }
 	}
 	r.Count("stream:generated", len(gen))
+	// 1b. systematic enumerations: truncated escapes, number-token stems, keyword prefixes (token level), and
+	// integer literals at the int32/int64 boundaries in every operand position (with the optimizer on and off)
+	tokOpts := []c04Opts{{Env: 0}, {Env: 2, Undef: true}, {Env: 1}, {Env: 2, NoOpt: true}}
+	var lexProbe []string
+	for name, list := range map[string][]string{"escapes": c04EscapeEnum(c.Thorough()), "numbers": c04NumberEnum(), "keywords": c04KeywordEnum()} {
+		for i, src := range list {
+			src, o, evalToo := src, tokOpts[i%len(tokOpts)], i%4 == 0
+			jobs <- func() {
+				if evalToo {
+					h.parseAndEval(src, fewEnvs[:1])
+				} else {
+					h.parseAndEval(src, nil)
+				}
+				h.compileAndRun(src, o, fewEnvs[:1])
+			}
+		}
+		lexProbe = append(lexProbe, list...)
+		r.Count("stream:enum-"+name, len(list))
+	}
+	bndOpts := []c04Opts{{Env: 1}, {Env: 1, NoOpt: true}, {Env: 2, Undef: true}, {Env: 0}, {Env: 1, As: 2}, {Env: 1, Patch: 3}}
+	if c.Thorough() {
+		bndOpts = baseOpts
+	}
+	bnd := c04BoundaryEnum(c.Thorough())
+	for _, src := range bnd {
+		for _, o := range bndOpts {
+			src, o := src, o
+			jobs <- func() { h.compileAndRun(src, o, fewEnvs[:1]) }
+		}
+	}
+	r.Count("stream:enum-boundaries", len(bnd))
 	// 2. the full option matrix on a few sources that reach every stage
 	matrixSrc := []string{`nil`, `I + 1`, `Upper("a") + S`, `all(Ints, {# > 0}) ? [1, 2][0] : Add(I, J)`}
 	all := c04AllOpts()
@@ -487,6 +519,9 @@ func runC04(c *Ctx) {
 			src = c04Mutate(c.Rng, src)
 		}
 		o := c04RandOpts(c.Rng)
+		if len(src) <= 512 {
+			lexProbe = append(lexProbe, src)
+		}
 		jobs <- func() { h.parseAndEval(src, fewEnvs[:1]); h.compileAndRun(src, o, fewEnvs[:3]) }
 	}
 	r.Count("stream:mutations", nMut)
@@ -510,12 +545,18 @@ func runC04(c *Ctx) {
 		if len(src) > 60000 {
 			r.Count("inputs:near-64KiB", 1)
 		}
+		if len(src) <= 512 {
+			lexProbe = append(lexProbe, src)
+		}
 		jobs <- func() { h.parseAndEval(src, fewEnvs[:1]); h.compileAndRun(src, o, fewEnvs[:2]) }
 	}
 	r.Count("stream:random-bytes", nRand)
 	close(jobs)
 	// 5. nesting bombs in a child process (runs while the pool drains)
 	c04RunBombs(h)
+	// 6. the adversarial strings through the lexer correspondence of C12: the Lean lexer model is proved total
+	// (C12.lex_total), so a panic or any other deviation of lexer.Lex shows as a model/implementation disagreement
+	c04LexCorrespondence(h, append(lexProbe, c04Sources...))
 	wg.Wait()
 	// calls that missed the deadline while 8 workers were busy: once more, alone, with a long deadline
 	slowCount, slowest, slowestWhat := 0, 0.0, ""
@@ -553,7 +594,7 @@ func runC04(c *Ctx) {
 		r.Violate(h.best[k])
 	}
 	for _, must := range []string{"class:parser.Parse:ok", "class:parser.Parse:error", "class:expr.Compile:ok", "class:expr.Compile:error", "class:expr.Eval:ok", "class:expr.Eval:error",
-		"class:expr.Run:ok", "class:expr.Run:error", "inputs:invalid-utf8", "inputs:near-64KiB", "bombs:completed", "stream:option-matrix"} {
+		"class:expr.Run:ok", "class:expr.Run:error", "inputs:invalid-utf8", "inputs:near-64KiB", "bombs:completed", "stream:option-matrix", "lex-correspondence:compared", "stream:enum-escapes", "stream:enum-boundaries"} {
 		if r.Counters[must] == 0 {
 			r.Mismatch("generator", must, "counter must be non-zero", "0")
 		}
@@ -713,4 +754,48 @@ func c04NativeFuzz(h *c04Run) {
 	}
 	h.violate(km[1], "go test -fuzz found an input on which "+km[2]+" fails", km[2], src, km[4], "", "a result or a non-nil error", km[5])
 	os.RemoveAll("testdata/fuzz/FuzzC04")
+}
+
+// c04LexCorrespondence compares lexer.Lex with the Lean lexer model (driver stage `lex`, shared with C12) on
+// the adversarial inputs of this check.  Inputs that are not valid UTF-8 are outside the model's domain.
+func c04LexCorrespondence(h *c04Run, srcs []string) {
+	r := h.c.R
+	seen := map[string]bool{}
+	var in []string
+	for _, s := range srcs {
+		if !seen[s] && utf8.ValidString(s) && len(s) <= 512 {
+			seen[s] = true
+			in = append(in, s)
+		}
+	}
+	lines := make([]string, len(in))
+	for i, s := range in {
+		lines[i] = T("lex", SStr(s)).String()
+	}
+	resp, err := h.c.AskAll(lines)
+	if err != nil {
+		r.Mismatch("driver", "c04 lex correspondence", err.Error(), "")
+		return
+	}
+	for i, s := range in {
+		model := resp[i]
+		if strings.HasSuffix(model, " rawbyte)") || model == "(bad-request)" {
+			r.Count("lex-correspondence:outside-model", 1)
+			continue
+		}
+		impl, _ := realLex(s)
+		r.Count("lex-correspondence:compared", 1)
+		if impl != model {
+			r.Count("lex-correspondence:disagree", 1)
+			if strings.HasPrefix(impl, "(panic") {
+				msg := strings.TrimSuffix(strings.TrimPrefix(impl, "(panic "), ")")
+				if u, err := strconv.Unquote(msg); err == nil {
+					msg = u
+				}
+				h.violate("c04:panic:lexer.Lex:"+c04MsgClass(msg), "lexer.Lex panics where the (total) lexer model returns", "lexer.Lex", s, "", "", model, "panic: "+msg)
+			} else {
+				r.Mismatch("c04-lex", fmt.Sprintf("%q", s), model, impl)
+			}
+		}
+	}
 }
